@@ -227,3 +227,6 @@ package journal
 //@   ensures validHeader(B, h, n, wantFirst, ck)
 //@   ensures h + headerSize + le16(B, h+4) == j
 //@   ensures (B[h+6] == fullChunkType || B[h+6] == lastChunkType) <==> l
+
+// call counters used by the write-ordering contracts of package leveldb (C04)
+//@ count (*Writer).Flush
